@@ -171,6 +171,13 @@ def run(model, rep, tier):
     rep.share(model, "C05", {"R-05.2"}, "R-09.4", "zone text is written with dns.rdata._escapify and read with Token.unescape_to_bytes")
     from rules.common import token_loops_end_at_eof
     token_loops_end_at_eof(model, rep, "R-09.5")
+    ap = model.func("dns.node.Node._append_rdataset")
+    e9 = pat.Env()
+    okk = pat.has(ap.node, "if __kind == NodeKind.CNAME:\n    self.rdatasets = [__r for __r in self.rdatasets if NodeKind.classify_rdataset(__r) != NodeKind.REGULAR]\nelif __kind == NodeKind.REGULAR:\n"
+                  "    self.rdatasets = [__r for __r in self.rdatasets if NodeKind.classify_rdataset(__r) != NodeKind.CNAME]", e9) \
+        and pat.has(ap.node, "__kind = NodeKind.classify_rdataset(rdataset)", e9)
+    rep.check(okk, "R-09.3", ap.qualname, where(ap, ap.node), "adding a CNAME-kind rdataset drops exactly the REGULAR ones and vice versa (NEUTRAL ones and the same kind stay)",
+              "the node-level exclusivity filter changed: e.g. a CNAME and its own RRSIG(CNAME) evict each other, or regular data survives next to a CNAME", stmt="node-filter")
     rep.meta["explanation"] = (
         "Three narrow structural clauses: the generic-syntax path encodes with the style's origin and the writer functions cannot raise; a taint-style gate analysis of the owner name in "
         "_rr_line/_generate_line (reachability with the in-zone edge removed, caller-supplied force_name exempt); and who-may-call / must-pass-through for the CNAME-exclusivity hook. "
@@ -178,6 +185,8 @@ def run(model, rep, tier):
 
 
 WITNESSES = [
+    {"id": "c09-node-filter-keeps-only-neutral", "rule": "R-09.3", "file": "dns/node.py", "expect": "fires",
+     "old": "                    if NodeKind.classify_rdataset(rds) != NodeKind.REGULAR", "new": "                    if NodeKind.classify_rdataset(rds) == NodeKind.NEUTRAL"},
     {"id": "c09-eat-line-spins-at-eof", "rule": "R-09.5", "file": "dns/zonefile.py", "expect": "fires",
      "old": "            token = self.tok.get()\n            if token.is_eol_or_eof():\n                break", "new": "            token = self.tok.get()\n            if token.is_eol():\n                break"},
     {"id": "c09-generate-relativizes-to-current-origin", "rule": "R-09.2", "file": "dns/zonefile.py", "expect": "fires",
